@@ -270,5 +270,50 @@ func main() {
 			t.Outcome("as-fresh")
 			t.Note(fmt.Sprintf("%d first streams (valid, cut inside a character / header / control frame, invalid text, protocol errors, close) x %d helper entry points x 2 sides, each followed by every helper on each of %d valid streams", len(dirts), len(hidden), len(valid)))
 		})
+
+		// Payloads beyond every pooled buffer class and beyond the helpers' preallocation limit.
+		r.Part("E5-large-payloads", func(t *explore.T) {
+			sizes := []int{4095, 4096, 4097, 65535, 65536, 65537, 1 << 20, 1<<20 + 1}
+			type job struct {
+				st   stream
+				desc string
+			}
+			var jobs []job
+			for _, side := range []streams.Side{streams.Server, streams.Client} {
+				for _, n := range sizes {
+					p := make([]byte, n)
+					for i := range p {
+						p[i] = byte(i*31 + i>>8 + 1)
+					}
+					mk := func(op byte, fin bool, pl []byte) streams.Frame {
+						return streams.Frame{H: refmodel.Hdr{Fin: fin, Op: op, Masked: side == streams.Server, Mask: streams.Masks[1]}, Payload: pl}
+					}
+					jobs = append(jobs,
+						job{stream{side, []streams.Frame{mk(2, true, p), mk(1, true, []byte("next"))}}, fmt.Sprintf("%s Bin(%d bytes) Text(next)", side, n)},
+						job{stream{side, []streams.Frame{mk(2, false, p[:n/3]), mk(9, true, []byte("pi")), mk(0, true, p[n/3:]), mk(1, true, []byte("next"))}}, fmt.Sprintf("%s Bin(%d bytes in 2 fragments around a Ping) Text(next)", side, n)},
+					)
+				}
+			}
+			t.Par(len(jobs), func(i int) {
+				j := jobs[i]
+				data, _ := streams.Wire(j.st.frames)
+				for _, d := range append([]drivers.Driver{drivers.ReaderLoop(4096), drivers.ReaderLoop(65537)}, ds...) {
+					if d.Name == "Reader/buf1" || d.Name == "Reader/buf2" || d.Name == "Reader/buf7" {
+						continue // the drivers' iteration guard is sized for small payloads
+					}
+					for _, ch := range []int{0, 4093, 65536} {
+						d, ch := d, ch
+						t.Do(func() string { return fmt.Sprintf("%s driver=%s chunk=%d", j.desc, d.Name, ch) }, func() *explore.Fail {
+							src := env.NewSrc(data)
+							src.Policy = env.FixedChunk(ch)
+							var res drivers.Result
+							d.Run(src, j.st.side, drivers.Cfg{}, &res)
+							return judge(d, j.st, &res, src)
+						})
+					}
+				}
+			})
+			t.Outcome("delivered-as-model")
+		})
 	})
 }
